@@ -22,8 +22,9 @@ type Clause struct {
 }
 
 type Guard struct {
-	Kind string // call, write, read
+	Kind string // call, write, read, sort
 	Name string
+	Loop int // 0: everywhere; n: only sites inside loop n
 	C    *Clause
 }
 
@@ -361,7 +362,12 @@ func (cs *ContractSet) parseItem(file, pkgPath, header string, line int, clauses
 				if err != nil {
 					return fmt.Errorf("%s:%d: %v", file, rc.line, err)
 				}
-				c.Guards = append(c.Guards, &Guard{Kind: fs[0], Name: strings.TrimSuffix(fs[1], ":"), C: &Clause{Kind: kw, Text: body, Expr: e, Line: rc.line, File: file}})
+				g := &Guard{Kind: fs[0], Name: strings.TrimSuffix(fs[1], ":"), C: &Clause{Kind: kw, Text: body, Expr: e, Line: rc.line, File: file}}
+				// optional site restriction: "guard call F in loop 3: e"
+				if len(fs) >= 5 && fs[2] == "in" && fs[3] == "loop" {
+					fmt.Sscanf(strings.TrimSuffix(fs[4], ":"), "%d", &g.Loop)
+				}
+				c.Guards = append(c.Guards, g)
 			case "unfoldat":
 				for _, part := range splitTop(body, ',') {
 					e, err := parseExpr(part)
